@@ -4,6 +4,7 @@
 package ev
 
 import (
+	"context"
 	"encoding/json"
 	"flag"
 	"fmt"
@@ -41,6 +42,12 @@ type state struct {
 	NotExhaustive []string                       `json:"not_exhaustive"`
 	EngineErrors  []string                       `json:"engine_errors"`
 	Notes         map[string]interface{}         `json:"notes"`
+	TaskSeconds   []taskTime                     `json:"task_seconds"`
+}
+
+type taskTime struct {
+	Name    string  `json:"name"`
+	Seconds float64 `json:"s"`
 }
 
 func newState() *state {
@@ -272,14 +279,22 @@ func (c *Check) RunTasks(tasks []Task) {
 				out := filepath.Join(c.workDir(), fmt.Sprintf("worker-%d.json", ti))
 				logp := filepath.Join(c.workDir(), fmt.Sprintf("worker-%d.log", ti))
 				_ = os.Remove(out)
-				cmd := exec.Command(os.Args[0], c.Tier)
+				// a worker gets the check's deadline plus a grace period; a task that ignores the deadline is killed
+				ctx, cancel := context.WithDeadline(context.Background(), c.deadline.Add(120*time.Second))
+				cmd := exec.CommandContext(ctx, os.Args[0], c.Tier)
 				cmd.Env = append(os.Environ(), fmt.Sprintf("VERIF_WORKER=%d/%d", ti, len(tasks)), "VERIF_TIER="+c.Tier,
 					fmt.Sprintf("VERIF_DEADLINE_UNIX=%d", c.deadline.Unix()), "GOMAXPROCS="+gomaxprocs(), "GOMEMLIMIT=6GiB")
 				logf, _ := os.Create(logp)
 				cmd.Stdout, cmd.Stderr = logf, logf
 				err := cmd.Run()
+				timedOut := ctx.Err() != nil
+				cancel()
 				logf.Close()
 				data, rerr := ioutil.ReadFile(out)
+				if timedOut {
+					c.NotExhaustive(fmt.Sprintf("task %s did not finish within the deadline and was stopped", tasks[ti].Name))
+					continue
+				}
 				if err != nil || rerr != nil {
 					c.EngineError(fmt.Sprintf("worker for task %d (%s) failed: run=%v read=%v\n%s", ti, tasks[ti].Name, err, rerr, tailFile(logp, 30)))
 					continue
@@ -324,8 +339,12 @@ func (c *Check) runTask(t Task) {
 			c.EngineError(fmt.Sprintf("task %s panicked in the harness: %v\n%s", t.Name, r, buf))
 		}
 	}()
+	st := time.Now()
 	t.Run()
 	c.Add("tasks_run", 1)
+	c.mu.Lock()
+	c.st.TaskSeconds = append(c.st.TaskSeconds, taskTime{t.Name, float64(int(time.Since(st).Seconds()*10)) / 10})
+	c.mu.Unlock()
 }
 
 func (c *Check) dumpWorker() {
@@ -388,6 +407,7 @@ func (c *Check) merge(ws *state) {
 		}
 	}
 	c.st.EngineErrors = append(c.st.EngineErrors, ws.EngineErrors...)
+	c.st.TaskSeconds = append(c.st.TaskSeconds, ws.TaskSeconds...)
 	for k, v := range ws.Notes {
 		c.st.Notes[k] = v
 	}
@@ -480,6 +500,12 @@ func (c *Check) Finish(cov map[string]interface{}) {
 		samples = append(samples, "no sample recorded")
 	}
 	cov["samples"] = samples
+	sort.Slice(c.st.TaskSeconds, func(i, j int) bool { return c.st.TaskSeconds[i].Seconds > c.st.TaskSeconds[j].Seconds })
+	if len(c.st.TaskSeconds) > 5 {
+		cov["slowest_tasks"] = c.st.TaskSeconds[:5]
+	} else if len(c.st.TaskSeconds) > 0 {
+		cov["slowest_tasks"] = c.st.TaskSeconds
+	}
 	exhaustive := len(c.st.NotExhaustive) == 0 && len(c.st.EngineErrors) == 0
 	if v, ok := cov["exhaustive"].(bool); ok {
 		exhaustive = exhaustive && v
